@@ -21,7 +21,7 @@ META = {
                'encode.py/decode.py reports any other time./datetime. API as unmodelled => inconclusive); '
                'K3 lemma below.',
     'bounds': 'instants 0..2^32-1; microsecond 0..999999; utc offsets and standard offsets -50400..50400 s; '
-              'DST flag; naive / aware / struct_time (tm_isdst=-1); via encode.timestamp, '
+              'DST flag; naive / aware / struct_time (tm_isdst=-1, with and without tm_gmtoff); via encode.timestamp, '
               'encode_table_value, Basic.Properties.timestamp in a content header',
     'outside': 'instants after 2106 (documented exception); historical zone changes; tm_isdst = 0/1 '
                'struct_time values; fold; binary64 rounding beyond the K3 lemma',
@@ -50,15 +50,17 @@ def body(wall, us, off, std, dst):
         v, epoch = hx.dt(wall, us, None), wall        # naive: read as UTC
     elif kind == 1:
         v, epoch = hx.dt(wall, us, off), wall - off   # aware: absolute instant
-    else:
+    elif kind == 2:
         v, epoch = hx.st(wall), wall                  # struct_time: read as UTC
+    else:
+        v, epoch = hx.st(wall, off), wall             # struct_time carrying tm_gmtoff: still read as UTC
     if not (0 <= epoch < 2**32):
         return hx.rejected()
     a = encode.timestamp(v)
     ok = epoch_bytes_ok(a, epoch) and decoded_ok(a, epoch)
     b = hx.fix(encode.encode_table_value(v))
     ok = ok and b[0] == ord('T') and epoch_bytes_ok(b[1:], epoch)
-    if kind != 2:
+    if kind < 2:
         p = commands.Basic.Properties(timestamp=v)
         d = hx.fix(frame.marshal(header.ContentHeader(0, 1, p), 1))
         ok = ok and epoch_bytes_ok(d[7 + 14:7 + 22], epoch)
@@ -149,7 +151,7 @@ def partitions(tier, seed):
     pre = ['-50400 <= wall < 2**32 + 50400', '0 <= us < 1000000', '-50400 <= off <= 50400',
            '-50400 <= std <= 50400']
     parts = []
-    for kind, label in ((0, 'naive'), (1, 'aware'), (2, 'struct_time')):
+    for kind, label in ((0, 'naive'), (1, 'aware'), (2, 'struct_time'), (3, 'struct_time_gmtoff')):
         parts.append(Part('tz_' + label, params, pre, BODY % {'kind': kind}, PRE, 250,
                           family='tz_independence',
                           bound='%s input: all instants 0..2^32-1 x microsecond x utc offset x zone (std, dst)' % label,
